@@ -20,16 +20,16 @@ type layout struct {
 
 func layouts(mac net.HardwareAddr) []layout {
 	return []layout{
-		{nil, true},                                  // offset 0
-		{[]byte{0}, true},                            // 1
-		{[]byte{116, 1, 1}, true},                    // 3
-		{[]byte{57, 2, 2, 64}, true},                 // 4
-		{[]byte{0, 116, 1, 1}, true},                 // 4
-		{[]byte{0, 57, 2, 2, 64}, true},              // 5
-		{[]byte{12, 4, 'h', 'o', 's', 't'}, true},    // 6
-		{[]byte{0, 0}, false},                        // 2
+		{nil, true},                                   // offset 0
+		{[]byte{0}, true},                             // 1
+		{[]byte{116, 1, 1}, true},                     // 3
+		{[]byte{57, 2, 2, 64}, true},                  // 4
+		{[]byte{0, 116, 1, 1}, true},                  // 4
+		{[]byte{0, 57, 2, 2, 64}, true},               // 5
+		{[]byte{12, 4, 'h', 'o', 's', 't'}, true},     // 6
+		{[]byte{0, 0}, false},                         // 2
 		{[]byte{0, 12, 4, 'h', 'o', 's', 't'}, false}, // 7
-		{append([]byte{61, 7, 1}, mac...), false},    // 9
+		{append([]byte{61, 7, 1}, mac...), false},     // 9
 	}
 }
 
@@ -126,10 +126,10 @@ func acquire(c int, relay bool, cid []byte) []HOp {
 // ---------------------------------------------------------------- probes
 
 type probeOpts struct {
-	guarded bool // IHL 5, >= 64 option bytes, recognised layout, valid requested address
-	ips     map[int]net.IP
-	cidOf   map[int][]byte
-	vlanOf  map[int][2]uint16
+	guarded  bool // IHL 5, >= 64 option bytes, recognised layout, valid requested address
+	ips      map[int]net.IP
+	cidOf    map[int][]byte
+	vlanOf   map[int][2]uint16
 	nClients int
 }
 
